@@ -146,6 +146,58 @@ Theorem C12_uv_worker_scratch_overwritten :
 Proof. exact Conc.ConcUVScratch.uv_worker_scratch_overwritten. Qed.
 Print Assumptions C12_uv_worker_scratch_overwritten.
 
+(** animation.DecodeFramesParallel (work queue + collection of results in arrival order,
+    ConcQueue.v; [dec] = the frame decoder, arbitrary): the decoded frames do not depend on
+    the arrival order of the results, hence not on the worker count or the schedule ... *)
+From Webp Require Conc.ConcQueue.
+Module Q := Conc.ConcQueue.
+Theorem C12_queue_frames_independent :
+  forall (A E : Type) (dec : Z -> A + E) total arrival,
+  Permutation arrival (zrange total) ->
+  fst (Q.collect A E dec arrival (repeat None (Z.to_nat total))) = map (Q.slot A E dec) (zrange total).
+Proof. exact Q.queue_frames_independent. Qed.
+Print Assumptions C12_queue_frames_independent.
+
+(** ... the returned error is nil iff no frame fails, and otherwise the error of some failing frame ... *)
+Theorem C12_queue_error_nil_iff :
+  forall (A E : Type) (dec : Z -> A + E) total arrival fr, Permutation arrival (zrange total) ->
+  (snd (Q.collect A E dec arrival fr) = None <-> forall i, 0 <= i < total -> ~ Q.fails A E dec i).
+Proof. exact Q.queue_error_nil_iff. Qed.
+Print Assumptions C12_queue_error_nil_iff.
+
+Theorem C12_queue_error_is_some_frames :
+  forall (A E : Type) (dec : Z -> A + E) arrival fr e,
+  snd (Q.collect A E dec arrival fr) = Some e -> exists i, In i arrival /\ dec i = inr e.
+Proof. exact Q.queue_error_is_some_frames. Qed.
+Print Assumptions C12_queue_error_is_some_frames.
+
+(** ... and it is independent of the arrival order when all failing frames report the same error. *)
+Theorem C12_queue_error_independent_if_unique :
+  forall (A E : Type) (dec : Z -> A + E) total arr1 arr2 fr1 fr2 e0,
+  Permutation arr1 (zrange total) -> Permutation arr2 (zrange total) ->
+  (forall i e, 0 <= i < total -> dec i = inr e -> e = e0) ->
+  snd (Q.collect A E dec arr1 fr1) = snd (Q.collect A E dec arr2 fr2).
+Proof. exact Q.queue_error_independent_if_unique. Qed.
+Print Assumptions C12_queue_error_independent_if_unique.
+
+(** REFUTED for the pinned collecting loop: with two frames failing with different errors
+    the returned error depends on the arrival order (finding, reproduced on the code). *)
+Theorem C12_queue_first_error_order_independent_refuted : ~ Q.queue_first_error_order_independent.
+Proof. exact Q.queue_first_error_order_independent_refuted. Qed.
+Print Assumptions C12_queue_first_error_order_independent_refuted.
+
+(** The repaired rule (work/patches/c12-anim-parallel-first-error.diff): the error of the
+    lowest failing frame index, for every arrival order. *)
+Theorem C12_queue_min_index_error_independent :
+  forall (A E : Type) (dec : Z -> A + E) total arrival fr,
+  Permutation arrival (zrange total) ->
+  match snd (Q.collect_min A E dec arrival fr) with
+  | None => forall i, 0 <= i < total -> ~ Q.fails A E dec i
+  | Some (j, e) => Q.is_min_fail A E dec total j e
+  end.
+Proof. exact Q.queue_min_index_error_independent. Qed.
+Print Assumptions C12_queue_min_index_error_independent.
+
 (** Tie to the source (regenerated on every run): every read of the CPU count and
     every [go] statement of the library is one of the modelled sites, and every such
     read is followed by its verification hook. *)
